@@ -68,7 +68,13 @@ class CoverpointCrossModel(CoverItemBase):
         
     def get_coverage(self):
         if not self.coverage_calc_valid:
-            self.coverage = (len(self.hit_l)-len(self.unhit_s))/len(self.hit_l) * 100.0
+            # A bin is covered once it has been hit 'at_least' times
+            at_least = 1 if self.options is None else self.options.at_least
+            n_covered = 0
+            for hits in self.hit_l:
+                if hits >= at_least:
+                    n_covered += 1
+            self.coverage = (100*n_covered)/len(self.hit_l)
             self.coverage_calc_valid = True
             
         return self.coverage
@@ -177,11 +183,12 @@ class CoverpointCrossModel(CoverItemBase):
             key = tuple(key_m)
             bin_idx = self.tuple2idx_m[key]
             self.hit_l[bin_idx] += 1
+            # Any hit can take the bin across its 'at_least' threshold
+            self.parent.coverage_ev(self, bin_idx)
+            self.coverage_calc_valid = False
             if bin_idx in self.unhit_s:
                 # New bin hit
-                self.parent.coverage_ev(self, bin_idx)
                 self.unhit_s.remove(bin_idx)
-                self.coverage_calc_valid = False
 
     def dump(self, ind=""):
         print(ind + "Cross: " + self.name)
